@@ -771,7 +771,80 @@ def xgen_buffers(rng):
     return g.text()
 
 
+def xgen_copyedit(rng):
+    """the source document was edited through the API (owner-less scalars and containers) before another document copies
+    from it; the destination then works on ITS copy: makes values indirect, edits in place, replaces data, dies"""
+    g = XGen(rng)
+    a = g.new_doc(rng.choice(["D", "D", "F0", "F1"]))
+    b = g.new_doc(rng.choice(["D", "D", "F0"]))
+    objs = []                                   # (handle expression in a, is stream)
+    if g.kind[a] != "D":
+        objs += [("o3", True), ("o4", True), ("o5", False)]
+    for _ in range(rng.randint(1, 2)):
+        if rng.random() < 0.6:
+            r = g.parse(a, depth=rng.choice([1, 2]))
+            g.emit("M,%d,r%d" % (a, r))
+            g.nobj[a] += 1
+            objs.append(("r%d" % r, False))
+        else:
+            r = g.free_root(a)
+            g.emit("N,%d,%d,%s" % (a, r, "".join("%02x" % rng.randint(97, 122) for _ in range(rng.randint(1, 5)))))
+            g.roots[r] = [a, ("S",)]
+            g.nobj[a] += 1
+            objs.append(("r%d" % r, True))
+    picked = rng.sample(objs, min(len(objs), rng.randint(1, 2)))
+    keys = {}
+    for h, is_stream in picked:
+        base = h + ("/d" if is_stream else "")
+        shape = None if is_stream or h[0] == "o" else g.roots[int(h[1:])][1]
+        keys[h] = []
+        for _ in range(rng.randint(1, 4)):
+            v = rng.choice(["I%d" % rng.randint(0, 999), "Y" + rng.choice(XKEYS), "I%d" % rng.randint(0, 9), "B", "G", "U"])
+            if shape is not None and shape[0] == "a":
+                g.emit("A,%d,%s,%s" % (a, base, v))
+                keys[h].append("i%d" % (len(shape[1]) + len(keys[h])))
+            else:
+                k = rng.choice(XKEYS)
+                g.emit("K,%d,%s,%s,%s" % (a, base, k, v))
+                keys[h].append("k" + k)
+    copies = []
+    for h, is_stream in picked:
+        r = g.free_root(b)
+        g.emit("C,%d,%d,%s,%d" % (b, a, h, r))
+        g.roots[r] = [b, ("S",) if is_stream else ("?",)]
+        g.nobj[b] += 1
+        copies.append((r, is_stream, keys[h]))
+    for _ in range(rng.randint(2, 6)):
+        r, is_stream, ks = rng.choice(copies)
+        base = "r%d" % r + ("/d" if is_stream else "")
+        sub = base + ("/" + rng.choice(ks) if ks and rng.random() < 0.8 else "")
+        k = rng.random()
+        if k < 0.45:
+            g.emit("M,%d,%s" % (b, sub))
+        elif k < 0.6:
+            g.emit("K,%d,%s,%s,I%d" % (b, sub, rng.choice(XKEYS), rng.randint(0, 99)))
+        elif k < 0.7:
+            g.emit("A,%d,%s,I%d" % (b, sub, rng.randint(0, 99)))
+        elif k < 0.78:
+            g.emit("R,%d,%s,%s" % (b, base, rng.choice(ks)[1:] if ks and ks[0][0] == "k" else rng.choice(XKEYS)))
+        elif k < 0.86 and is_stream:
+            g.emit("Z,%d,r%d,%s" % (b, r, "".join("%02x" % rng.randint(65, 90) for _ in range(rng.randint(1, 4)))))
+        elif k < 0.93:
+            g.emit("W,%d" % rng.choice([a, b]))
+        else:
+            g.step(a)
+    if rng.random() < 0.6:
+        d = rng.choice([a, b])
+        g.emit("X,%d" % d)
+        g.alive.discard(d)
+    for d in sorted(g.alive):
+        g.emit("W,%d" % d)
+    return g.text()
+
+
 XCORPUS = [
+    # document 1 was edited through the API; document 2 copies the object and makes values of ITS copy indirect
+    "D,1;D,2;P,1,11,<.NA.i1.>;M,1,r11;K,1,r11,B,I90;K,1,r11,C,YK;K,1,r11,D,G;C,2,1,r11,21;M,2,r21/kB;M,2,r21/kC;M,2,r21/kD;W,1;X,2;W,1",
     # template /MediaBox and /Resources values used for the pages of two documents; one document dies
     "P,0,1,[.i0.i0.i612.i792.];P,0,2,<.NA.[.NB.NC.].NB.<.NC.<.ND.i5.>.>.>;D,1;D,2;P,1,11,<.NA.NK.>;M,1,r11;K,1,r11,B,r1;K,1,r11,C,r2;"
     "P,2,21,<.NA.NK.>;M,2,r21;K,2,r21,B,r1;K,2,r21,C,r2;W,1;X,1;W,2",
@@ -817,7 +890,7 @@ def xseg_party(key):
 
 
 def xop_buffer(op):
-    f = op.split(",")
+    f = op.replace("!", "").split(",")
     if f[0] in ("G", "g", "B"):
         return "b" + f[3]
     if f[0] in ("V", "U"):
@@ -847,7 +920,7 @@ def xstrip(line):
     """implementation dump -> what the model prints (hashes, fresh-parse probe and trailing blanks removed)"""
     out = []
     for st in line.split("#"):
-        st = re.sub(r"^ok:[0-9a-f]{16}", "ok", XHASH.sub("", st))
+        st = re.sub(r"^ok:[0-9a-f]{16}", "ok", XHASH.sub("", st)).replace("skip^shared|", "skip|", 1)
         st = re.sub(r" ?F=.*$", "", st)
         out.append(st.rstrip())
     return "#".join(out)
@@ -857,8 +930,8 @@ def part_alias(chk, drv, runner):
     """histories over storage that several parties can reach: direct containers shared by documents and program
     variables, stream data buffers shared by a stream and its foreign copies, buffers handed to the caller"""
     rng = chk.rng
-    n = 90 if chk.tier == "quick" else 6000
-    fams = (("templates", xgen_templates), ("takeout", xgen_takeout), ("buffers", xgen_buffers), ("random", xgen_random))
+    n = 80 if chk.tier == "quick" else 5000
+    fams = (("templates", xgen_templates), ("takeout", xgen_takeout), ("buffers", xgen_buffers), ("copyedit", xgen_copyedit), ("random", xgen_random))
     hists, fam = list(XCORPUS), {h: "corpus" for h in XCORPUS}
     for i in range(n):
         for name, fn in fams:
@@ -895,16 +968,35 @@ def part_alias(chk, drv, runner):
             chk.violation({"kind": "model-violates-frame (hx_frame_other_parties says it cannot)", "history": h, "model": model[idx][:800]}, no_input=True)
         bad = xframe_violations(h, st)
         same = xstrip(impl[idx]) == mclean
+        forced = None
+        if not bad and not same:
+            # the library lets another party see an object that, by the model, only the acting document can see (the
+            # driver then refused the in-place operation): perform that operation - it is an operation of the acting
+            # document on its own object - and look at the other parties
+            k = next((i for i, ((r, _), (mr, _)) in enumerate(zip(st[1:], msteps[1:])) if r.startswith("skip^shared") and not mr.startswith("skip")), None)
+            if k is not None:
+                f = ops[k].split(",")
+                h2 = ";".join(ops[:k] + [",".join([f[0] + "!"] + f[1:])] + ops[k + 1:])
+                out2 = common.run_lines(drv, ["isox " + h2])[0]
+                st2 = xparse_steps(out2)
+                if st2 is not None and len(st2) == len(ops) + 1:
+                    bad = [b for b in xframe_violations(h2, st2) if b[0] >= k]
+                    if bad:
+                        forced = {"history_with_the_refused_operation_performed": h2, "refused_step": k, "refused_operation": ops[k],
+                                  "why_refused": "the driver only edits an object in place when no other party can reach it; the library made this one "
+                                                 "reachable from another party although no operation of the history put it there (the model, for which "
+                                                 "separation is the premise of hx_frame_other_parties, says only the acting document can see it)"}
+                        h = h2
         if bad:
             i, op, key, b, a = bad[0]
             p = xseg_party(key)
             what = ("a fresh parse" if key == "F" else "the Buffer in the program's variable %s, which this operation does not use" % key if isinstance(p, str)
                     else "the program's own handle %s" % key if p == 0 else "document %s (%s)" % (p, key))
-            chk.violation({"kind": "property-fails-on-implementation", "part": "alias", "family": fam[h],
+            chk.violation({"kind": "property-fails-on-implementation", "part": "alias", "family": fam.get(h, fam.get(hists[idx])),
                            "why": "step %d (%s) is an operation of %s but changed what a caller sees of %s" % (
                                i, op, "the program on a Buffer it was handed" if op[0] == "U" else "document %s" % op.split(",")[1], what),
                            "history": h, "step": i, "op": op, "segment": key, "before": b, "after": a, "changed_segments": len(bad),
-                           "model_predicts_the_same": same, "replay": "isox " + h})
+                           "model_predicts_the_same": same, "replay": "isox " + h, **(forced or {})})
         elif not same:
             tie.append(idx)
         else:
